@@ -110,6 +110,76 @@ Proof.
     apply (inv_scope wf_local e objs root _ Hwf Hres).
 Qed.
 
+(* the value a member returns for a declared property the raw map supplies (through a reference / scope too) *)
+Lemma member_field_value e m ps f t nl kvs n k p d : Inv wf_local e m -> member_props e m = Some ps ->
+  unser f e m (VMap t nl kvs) = Ok n -> alookup k ps = Some p -> smap_get k kvs = Some d ->
+  exists r2 y f' e', n = raw_to_val r2 /\ alookup k r2 = Some y /\ unser f' e' (p_type p) d = Ok y.
+Proof.
+  intros Hwf Hm H Hp Hd. destruct m; try (cbn in Hm; discriminate Hm).
+  - cbn [member_props] in Hm. inversion Hm; subst. destruct f as [|f]; [discriminate H|].
+    destruct (obj_field_value words pu e id unenforced ps f t nl kvs n k p d (wf_obj_nodup e id unenforced ps Hwf) H Hp Hd)
+      as (r2 & y & A & B & C). exists r2, y, f, e. auto.
+  - cbn [member_props] in Hm. destruct (resolve e id ns) as [[o e']|] eqn:Hres; [|discriminate Hm].
+    destruct o; try discriminate Hm. inversion Hm; subst.
+    destruct f as [|f]; [discriminate H|]. rewrite (unser_S words pu) in H. cbv beta iota in H. rewrite Hres in H.
+    destruct f as [|f]; [discriminate H|].
+    pose proof (inv_ref wf_local e id ns d0 _ e' Hwf Hres) as Hwf'.
+    destruct (obj_field_value words pu e' id0 unenforced ps f t nl kvs n k p d (wf_obj_nodup e' id0 unenforced ps Hwf') H Hp Hd)
+      as (r2 & y & A & B & C). exists r2, y, f, e'. auto.
+  - cbn [member_props] in Hm. destruct (alookup root objs) as [o|] eqn:Hres; [|discriminate Hm].
+    destruct o; try discriminate Hm. inversion Hm; subst.
+    destruct f as [|f]; [discriminate H|]. rewrite (unser_S words pu) in H. cbv beta iota in H. rewrite Hres in H.
+    destruct f as [|f]; [discriminate H|].
+    pose proof (inv_scope wf_local e objs root _ Hwf Hres) as Hwf'.
+    destruct (obj_field_value words pu (env_enter e objs) id unenforced ps f t nl kvs n k p d
+                (wf_obj_nodup (env_enter e objs) id unenforced ps Hwf') H Hp Hd) as (r2 & y & A & B & C).
+    exists r2, y, f, (env_enter e objs). auto.
+Qed.
+
+(* a plain discriminator property returns exactly the typed key the one-of computed from the same raw value ... *)
+Lemma plain_typed ik t f e d y key : disc_type_ok ik t = true -> disc_plain t = true ->
+  unser f e t d = Ok y -> discr_denotes ik d key -> typed_discr ik y = Some key /\ y <> VNil.
+Proof.
+  intros Hdt Hpl H Hk. destruct f as [|f]; [discriminate H|]. rewrite (unser_S words pu) in H.
+  unfold discr_denotes in Hk. destruct ik.
+  - destruct Hk as (z & Hz & ->).
+    destruct t; cbn in Hdt; try discriminate Hdt; cbv beta iota in H.
+    + destruct u; cbn in Hpl; [discriminate Hpl|]. unfold int_unser in H. rewrite Hz in H. unfold int_bounds in H.
+      destruct (size_ok mn mx z); inversion H. split; [reflexivity | discriminate].
+    + destruct u; cbn in Hpl; [discriminate Hpl|]. unfold enum_int_unser in H. rewrite Hz in H.
+      destruct (enum_int_mem vals z); inversion H. split; [reflexivity | discriminate].
+  - destruct Hk as (s & Hs & ->).
+    destruct t; cbn in Hdt; try discriminate Hdt; cbv beta iota in H.
+    + unfold string_unser in H. rewrite Hs in H. unfold string_check in H.
+      destruct (size_ok mn mx (slen s)); [|discriminate H].
+      destruct pat as [[src r]|]; [destruct (re_match_string r s)|]; inversion H; (split; [reflexivity | discriminate]).
+    + destruct named; cbn in Hpl; [discriminate Hpl|]. unfold enum_str_unser in H. rewrite Hs in H.
+      destruct (enum_str_mem vals s); inversion H. split; [reflexivity | discriminate].
+Qed.
+
+(* ... and reads its own serialized form back to that key *)
+Lemma plain_denotes ik t f e wd y key : disc_type_ok ik t = true -> disc_plain t = true ->
+  unser f e t wd = Ok y -> typed_discr ik y = Some key -> discr_denotes ik wd key.
+Proof.
+  intros Hdt Hpl H Hk. destruct f as [|f]; [discriminate H|]. rewrite (unser_S words pu) in H.
+  unfold discr_denotes. destruct ik.
+  - destruct t; cbn in Hdt; try discriminate Hdt; cbv beta iota in H.
+    + destruct u; cbn in Hpl; [discriminate Hpl|]. unfold int_unser in H.
+      destruct (int_mapper None wd) as [z|] eqn:Ez; [|discriminate H]. unfold int_bounds in H.
+      destruct (size_ok mn mx z); inversion H; subst y. cbn in Hk. inversion Hk. exists z. split; reflexivity.
+    + destruct u; cbn in Hpl; [discriminate Hpl|]. unfold enum_int_unser in H.
+      destruct (int_mapper None wd) as [z|] eqn:Ez; [|discriminate H].
+      destruct (enum_int_mem vals z); inversion H; subst y. cbn in Hk. inversion Hk. exists z. split; reflexivity.
+  - destruct t; cbn in Hdt; try discriminate Hdt; cbv beta iota in H.
+    + unfold string_unser in H. destruct (string_mapper wd) as [s|] eqn:Es; [|discriminate H]. unfold string_check in H.
+      destruct (size_ok mn mx (slen s)); [|discriminate H].
+      destruct pat as [[src r]|]; [destruct (re_match_string r s)|]; inversion H; subst y; cbn in Hk; inversion Hk;
+        exists s; split; reflexivity.
+    + destruct named; cbn in Hpl; [discriminate Hpl|]. unfold enum_str_unser in H.
+      destruct (string_mapper wd) as [s|] eqn:Es; [|discriminate H].
+      destruct (enum_str_mem vals s); inversion H; subst y. cbn in Hk. inversion Hk. exists s. split; reflexivity.
+Qed.
+
 Lemma oneof_rtf f :
   (forall e s v n, Inv wf_local e s -> Inv (c01_local true) e s -> unser f e s v = Ok n ->
      distinct_in words pu f e s v = true -> ints_in_range n = true -> any_clean n = true ->
@@ -122,29 +192,71 @@ Lemma oneof_rtf f :
   exists w, rtf true e (SOneOf types ik field inlined) (S (S (2 * f))) n w.
 Proof.
   intros IH e types ik field inlined v n Hwf Hsc H Hdi Hr Hac.
-  assert (Hinl : inlined = false).
-  { pose proof (inv_here (c01_local true) e _ Hsc) as Hl. cbn [c01_local andb] in Hl. destruct inlined; [discriminate Hl | reflexivity]. }
-  subst inlined.
   apply (oneof_unser_iff words pu) in H.
   destruct H as (t & nl & kvs & d & key & k0 & member & x & -> & Hkeys & Ed & Hkey & Ef & Hx & En).
-  cbv iota in Hx.
   (* the selected member *)
   destruct (find_some _ _ Ef) as [Hin Hke]. cbn [fst] in Hke. apply okey_eqb_eq in Hke. subst k0.
   pose proof (inv_here wf_local e _ Hwf) as Hl. cbn [wf_local] in Hl. apply andb_prop in Hl. destruct Hl as [_ Hmem].
   rewrite forallb_forall in Hmem. specialize (Hmem _ Hin). unfold wf_member in Hmem. cbn [fst snd] in Hmem.
   apply andb_prop in Hmem. destruct Hmem as [Hmem Hmp]. apply andb_prop in Hmem. destruct Hmem as [Hkis _].
   destruct (member_props e member) as [ps|] eqn:Emp; [|discriminate Hmp].
-  destruct (alookup field ps) as [pf|] eqn:Efp; [cbn [andb] in Hmp; discriminate Hmp|]. clear Hmp.
   cbn [distinct_in] in Hdi. rewrite Ed in Hdi. rewrite (proj2 (discr_denotes_iff ik d key) Hkey) in Hdi. rewrite Ef in Hdi.
-  cbv iota in Hdi.
-  assert (Hwfm : Inv wf_local e member) by (apply (inv_member wf_local e types ik field false (key, member) Hwf Hin)).
-  assert (Hscm : Inv (c01_local true) e member) by (apply (inv_member (c01_local true) e types ik field false (key, member) Hsc Hin)).
+  assert (Hwfm : Inv wf_local e member) by (apply (inv_member wf_local e types ik field inlined (key, member) Hwf Hin)).
+  assert (Hscm : Inv (c01_local true) e member) by (apply (inv_member (c01_local true) e types ik field inlined (key, member) Hsc Hin)).
   destruct (member_unser_shape e member ps f _ x Hwfm Emp Hx Hdi) as (r2 & -> & Hdecl).
+  rewrite is_str_any_map_raw in En.
+  pose proof (inv_here (c01_local true) e _ Hsc) as Hloc. cbn [c01_local andb] in Hloc.
+  destruct inlined.
+  { (* ---- the discriminator is a property of the member ---- *)
+    cbv iota in Hx, Hdi, En. subst n. cbn [negb orb] in Hloc.
+    rewrite forallb_forall in Hloc. specialize (Hloc _ Hin). unfold c01_member_plain in Hloc. cbn [snd] in Hloc. rewrite Emp in Hloc.
+    destruct (alookup field ps) as [pf|] eqn:Efp; [|discriminate Hloc]. cbn [andb] in Hmp.
+    destruct (IH e member _ (raw_to_val r2) Hwfm Hscm Hx Hdi Hr Hac) as (wx & Hwx).
+    destruct (rt_shape _ _ _ _ _ _ _ _ Hwx ps Emp) as (r2' & out & E1 & -> & Hko & _).
+    apply raw_to_val_inj in E1. subst r2'.
+    assert (Hwx1 : rtf true e member (S (2 * f)) (raw_to_val r2) (raw_to_val out)) by (apply (rtf_mono words pu true e member (2 * f)); [lia | exact Hwx]).
+    destruct (member_field_value e member ps f t_str_map false kvs (raw_to_val r2) field pf d Hwfm Emp Hx Efp Ed)
+      as (r2' & yd & f1 & e1 & E1 & Hyd & Hud).
+    apply raw_to_val_inj in E1. subst r2'.
+    destruct (plain_typed ik (p_type pf) f1 e1 d yd key Hmp Hloc Hud Hkey) as [Htd Hnn].
+    assert (Hwd : exists wd, alookup field out = Some wd).
+    { apply amem_alookup. apply amem_keys. rewrite Hko. apply amem_keys. apply amem_alookup. eauto. }
+    destruct Hwd as (wd & Hwd).
+    destruct (member_field_value e member ps (S (2 * f)) t_str_map false (rawv out) (raw_to_val r2) field pf wd Hwfm Emp
+                (rt_uns _ _ _ _ _ _ _ _ Hwx1) Efp) as (r2' & yd' & f2 & e2 & E1 & Hyd' & Hud').
+    { rewrite smap_get_raw. exact Hwd. }
+    apply raw_to_val_inj in E1. subst r2'. assert (yd' = yd) by congruence. subst yd'.
+    pose proof (plain_denotes ik (p_type pf) f2 e2 wd yd key Hmp Hloc Hud' Htd) as Hden.
+    assert (Hfind : forall j, (2 * f <= j)%nat ->
+              oneof_find (S j) e types ik field true (raw_to_val r2) = Ok (key, member, raw_to_val r2)).
+    { intros j Hj. apply (oneof_find_iff words pu). exists (rawv r2), yd, key.
+      split; [reflexivity|]. split; [rewrite smap_get_raw; exact Hyd|]. split; [exact Hnn|]. split; [exact Htd|]. split; [exact Ef|].
+      split; [reflexivity|].
+      apply (compat_mono words pu (2 * f) j e member _ _ Hj (rt_cmp _ _ _ _ _ _ _ _ Hwx eq_refl)). discriminate. }
+    exists (raw_to_val out). constructor.
+    - exact (rt_wire _ _ _ _ _ _ _ _ Hwx).
+    - discriminate.
+    - apply (validate_oneof_iff words pu). exists key, member, (raw_to_val r2). split; [apply Hfind; lia | apply (rt_val _ _ _ _ _ _ _ _ Hwx1)].
+    - rewrite (serialize_S words pu). cbv beta iota. rewrite (Hfind (2 * f)%nat) by lia. cbn [bind]. cbv beta iota zeta.
+      rewrite (rt_ser _ _ _ _ _ _ _ _ Hwx1). cbn [bind]. rewrite is_str_any_map_raw. cbv beta iota.
+      rewrite smap_get_raw, Hwd. reflexivity.
+    - apply (oneof_unser_iff words pu). unfold oneof_routes.
+      exists t_str_map, false, (rawv out), wd, key, key, member, (raw_to_val r2).
+      split; [reflexivity|]. split.
+      { intros kv Hkv. apply in_map_iff in Hkv. destruct Hkv as (c & <- & _). exists (fst c). reflexivity. }
+      split; [rewrite smap_get_raw; exact Hwd|]. split; [exact Hden|]. split; [exact Ef|]. split.
+      { cbv iota. exact (rt_uns _ _ _ _ _ _ _ _ Hwx1). }
+      rewrite is_str_any_map_raw. reflexivity.
+    - intros _. rewrite (compat_S words pu). cbv beta iota. rewrite is_str_any_map_raw. cbv beta iota.
+      rewrite (Hfind (2 * f)%nat) by lia. reflexivity.
+    - intros ps' Hm. discriminate Hm. }
+  (* ---- the discriminator is not inlined ---- *)
+  cbv iota in Hx, Hdi, En. clear Hloc.
+  destruct (alookup field ps) as [pf|] eqn:Efp; [cbn [andb] in Hmp; discriminate Hmp|]. clear Hmp.
   assert (Hfr : alookup field r2 = None).
   { destruct (alookup field r2) as [y|] eqn:E0; [|reflexivity]. exfalso.
     assert (Ht : amem field ps = true) by (apply Hdecl; apply amem_keys; apply amem_alookup; eauto).
     apply amem_alookup in Ht. destruct Ht as (p0 & Hp0). congruence. }
-  rewrite is_str_any_map_raw in En. cbv iota in En.
   rewrite (map_set_new' _ _ _ (knew_raw field r2 Hfr)) in En. subst n.
   set (disc := okey_val key) in *.
   (* the parts of n *)
